@@ -153,7 +153,7 @@ def encode_umist(lr, numstyle="e"):
 
 
 # ------------------------------------------------------------------------------------ Leeds
-def encode_leeds(lr):
+def encode_leeds(lr, idx_right=False):
     """fixed columns: idx(5) reactants(3x10) products(5x10) alpha(8) beta(9) gamma(10) Tlo(5) Thi(5) type(3)."""
     r, p = _cells(lr, 3, 5)
     for n in r + p:
@@ -167,7 +167,7 @@ def encode_leeds(lr):
     for s, w in ((a, 8), (b, 9), (c, 10), (lo, 5), (hi, 5)):
         if len(s) != w:
             raise ValueError("value does not fit its Leeds column")
-    idx = f"{lr['idx']:<5d}"
+    idx = f"{lr['idx']:>5d}" if idx_right else f"{lr['idx']:<5d}"
     if len(idx) != 5:
         raise ValueError("index does not fit")
     return idx + "".join(f"{n:<10}" for n in r) + "".join(f"{n:<10}" for n in p) + a + b + c + lo + hi + f"{lr['code']:3d}"
